@@ -36,7 +36,7 @@ def parseFs (s : String) : FSpec :=
 
 def parseCmds (s : String) : List Cmd :=
   ((s.splitOn " ;; ").filter (fun c => c.trimAscii.toString != "")).flatMap fun c =>
-    match fields c " " with
+    match fields (if c.trimAscii.toString.startsWith "!" then (c.trimAscii.toString.drop 1).toString else c) " " with
     | ["open"] => [.openOk]
     | ["opensort"] => [.openOk]       -- (generated only for traces whose calculated times are strictly increasing)
     | ["openbad"] => [.openBad]
@@ -74,11 +74,39 @@ def doLine (line : String) : String :=
     let cmds := parseCmds sc
     let r := Srv.run msgs {} cmds
     let replies := r.1.map showReply
-    let del := r.2.delivered.map fun (k, ps) => s!"{k}:{"+".intercalate (ps.map toString)}"
+    let delOf := fun (kp : Nat × List Nat) => s!"{kp.1}:{"+".intercalate (kp.2.map toString)}{if r.2.queries.contains kp.1 then ":end" else ""}"
+    let del := r.2.delivered.map delOf
     let mobs := s!"{" ".intercalate replies} | {" ".intercalate del} | alive=1 proc=1"
-    let parts := impl.splitOn " | "
+    -- commands sent while the server is still parsing (`!`): a stream that is ended by a later stop / close / window change
+    -- may have received only a prefix of its window
+    let racing := (sc.splitOn " ;; ").any fun c => c.trimAscii.toString.startsWith "!"
+    let announcedAt : List (Nat × Nat) := (r.1.zipIdx.filterMap fun (rp, i) =>
+      match rp with
+      | .ok d => if d.startsWith "id" then some (nat! (d.drop 2).toString, i) else none
+      | _ => none)
+    let cutIds : List Nat := announcedAt.filterMap fun (k, i) =>
+      if ((cmds.zip r.1).zipIdx.any fun ((c, rp), j) =>
+        j > i && (match rp with | .ok _ => true | _ => false) &&
+        (match c with | .close => true | .stop k' => k' == k | .changeWindow k' _ _ => k' == k | _ => false)) then some k else none
+    let parts0 := impl.splitOn " | "
+    let idel0 := parts0.getD 1 ""
+    let idel :=
+      if !racing then idel0 else
+      " ".intercalate ((fields idel0 " ").map fun e =>
+        match e.splitOn ":" with
+        | k :: idxs :: flags =>
+          let kn := nat! k
+          if cutIds.contains kn && !flags.contains "early" && !flags.contains "diff" then
+            (match r.2.delivered.find? (·.1 == kn) with
+             | some kp =>
+               let got := (fields idxs "+").map fun x => nat! x
+               if got.isPrefixOf kp.2 then delOf kp else e
+             | none => e)
+          else e
+        | _ => e)
+    let canon := s!"{parts0.headD ""} | {idel} | {parts0.getD 2 ""}"
+    let parts := canon.splitOn " | "
     let ireplies := fields (parts.headD "") " "
-    let idel := parts.getD 1 ""
     let tail := parts.getD 2 ""
     let c15 :=
       if impl == "" then "-" else if impl == "PANIC" || impl == "NOCONNECT" then "FAIL:server-not-reachable"
@@ -104,7 +132,7 @@ def doLine (line : String) : String :=
       (if replies.any (· == "err") then ["err-reply"] else []) ++ (if replies.any (· == "unknown") then ["unknown-cmd"] else []) ++
       (if r.2.delivered.any (fun d => !d.2.isEmpty) then ["data-delivered"] else []) ++
       (if replies.any (· == "ok:close") then ["close"] else [])
-    s!"{mobs}\tC15={c15};C16={c16}\tC15=ok;C16=ok\t{",".intercalate tags}"
+    s!"{mobs}\tC15={c15};C16={c16}\tC15=ok;C16=ok\t{",".intercalate (tags ++ (if racing then ["racing"] else []) ++ (if (ms.splitOn "*").length > 1 then ["big-file"] else []))}{if racing && impl != "" then "\t" ++ canon else ""}"
   | _ => "bad\tC15=FAIL:unparsable;C16=FAIL:unparsable\tC15=ok;C16=ok\t"
 
 end Rem
